@@ -2,6 +2,8 @@ use crate::engine::{Ctx, Finish, Local};
 
 pub mod c01;
 pub mod c02;
+pub mod c03;
+pub mod c04;
 pub mod c05;
 
 pub type RunFn = fn(&Ctx) -> Finish;
@@ -11,6 +13,8 @@ pub fn registry() -> Vec<(&'static str, RunFn, ReplayFn)> {
     vec![
         ("C01", c01::run as RunFn, c01::replay as ReplayFn),
         ("C02", c02::run as RunFn, c02::replay as ReplayFn),
+        ("C03", c03::run as RunFn, c03::replay as ReplayFn),
+        ("C04", c04::run as RunFn, c04::replay as ReplayFn),
         ("C05", c05::run as RunFn, c05::replay as ReplayFn),
     ]
 }
